@@ -1,5 +1,5 @@
 import VermouthProofs.C02_Atoms
-import VermouthProofs.C02_Text
+import VermouthProofs.C02_Walk
 import Generated.C02Tables
 /-!
 # C02 — a written ITP states exactly the molecule held in memory
@@ -195,17 +195,35 @@ theorem parse_render_eq (tbl : List (String × Arity)) (ls : List Line)
     parse tbl (render ls) = parseTokens tbl (ls.map lineTokens) :=
   parse_render tbl ls h
 
-/-- **Round trip at character level**, stated with the token conditions on the written LINES
-(`LineOk`, `NoNl`) instead of on the molecule.
-Full statement intended (DESIGN 5.2):
-  `wellFormed tbl m = true → charOk m = true → ∃ ls, write m = .ok ls ∧ parse tbl (render ls) = .ok (canon m)`.
-Missing: the lemma `charOk m = true → ∀ l ∈ fileLines m, LineOk l ∧ NoNl l` (a membership walk over the
-writer's output; every field of every line is a field of `m` or `toString` of a number). -/
-theorem parse_write_partial (tbl : List (String × Arity)) (m : Mol) (h : wellFormed tbl m = true) :
-    ∃ ls, write m = .ok ls ∧
-      ((∀ l ∈ ls, LineOk l ∧ NoNl l) → parse tbl (render ls) = .ok (canon m)) := by
+/-- the character conditions on the molecule carry over to every written line -/
+theorem written_lines_ok (tbl : List (String × Arity)) (m : Mol) (h : wellFormed tbl m = true)
+    (hc : charOk m = true) (ls : List Line) (hw : write m = .ok ls) :
+    ∀ l ∈ ls, LineOk l ∧ NoNl l := by
+  have hf := wfFacts_of tbl m h
+  rw [write_ok tbl m hf] at hw
+  cases hw
+  intro l hl
+  have := fileLines_good tbl m hf (charFacts_of m hc) l hl
+  exact ⟨lineOk_of_good l this, noNl_of_good l this⟩
+
+/-- **Round trip at character level** (the statement of DESIGN 5.2): for every well-formed
+molecule whose token fields are non-empty and free of whitespace and `;` and whose free texts
+contain no newline, the writer succeeds and the independent reader applied to the rendered TEXT
+returns exactly the molecule in memory in canonical form — atoms 1..N in atom-id order with
+their fields, every interaction in its section (impropers under dihedrals), inside its guard, on
+the same atoms through the renumbering table, with the same parameters.  Node keys, node order,
+atom ids, column widths are arbitrary. -/
+theorem parse_write (tbl : List (String × Arity)) (m : Mol) (h : wellFormed tbl m = true)
+    (hc : charOk m = true) :
+    ∃ ls, write m = .ok ls ∧ parse tbl (render ls) = .ok (canon m) := by
   obtain ⟨ls, h1, h2⟩ := parse_write_tokens tbl m h
-  exact ⟨ls, h1, fun hl => by rw [parse_render tbl ls hl, h2]⟩
+  refine ⟨ls, h1, ?_⟩
+  rw [parse_render tbl ls (written_lines_ok tbl m h hc ls h1), h2]
+
+/-- the same for the arity table extracted from the repository -/
+theorem parse_write_repo (m : Mol) (h : wellFormed arityTable m = true) (hc : charOk m = true) :
+    ∃ ls, write m = .ok ls ∧ parse arityTable (render ls) = .ok (canon m) :=
+  parse_write arityTable m h hc
 
 /-! ## non-vacuity -/
 
@@ -229,6 +247,9 @@ unordered keys, a permuted / partly absent atom id, guards, groups, impropers, `
 example : ∃ ls, write exMol = .ok ls ∧ parseTokens arityTable (ls.map lineTokens) = .ok (canon exMol) :=
   parse_write_tokens_repo exMol (by decide)
 example : (exMol.atoms.map (·.key)).Nodup := by decide
+example : charOk exMol = true := by decide
+example : ∃ ls, write exMol = .ok ls ∧ parse arityTable (render ls) = .ok (canon exMol) :=
+  parse_write_repo exMol (by decide) (by decide)
 /-- a line with padding, an empty charge column and a comment satisfies `LineOk` -/
 example : LineOk (.inter 3 true [1, 22] ["1"] (some "c ; d")) := by
   refine ⟨?_, by simp⟩
